@@ -15,7 +15,9 @@ pub struct AffinePoint {
 
 impl Hash for AffinePoint {
     fn hash<H: core::hash::Hasher>(&self, state: &mut H) {
-        self.inner.hash(state);
+        // Consistent with `PartialEq`: hash the canonical encoding.
+        let element: Element = self.into();
+        element.vartime_compress().0.hash(state);
     }
 }
 
